@@ -447,11 +447,27 @@ func TestC07_Matrix(t *testing.T) {
 // ---- raw ends: each SDK side alone must only ever settle on a supported version ----
 
 type RawScript struct {
-	Side    string `json:"side"`    // "server": raw client -> SDK server; "client": SDK client -> scripted server
+	Side    string `json:"side"`    // "server": raw client -> SDK server; "client": SDK client -> scripted server; "discover": the same with the client free to discover
 	Version string `json:"version"` // version the raw end puts on the wire
+	// discover side only: what the client asks for ("" = default), and how the scripted server answers
+	// server/discover: "list" (Advertised), "empty" ([]), "null", "absent" (no supportedVersions member), "error".
+	Requested  string   `json:"requested,omitempty"`
+	Discover   string   `json:"discover,omitempty"`
+	Advertised []string `json:"advertised,omitempty"`
 }
 
 func genRaw(rt *rapid.T) RawScript {
+	if rapid.IntRange(0, 2).Draw(rt, "discover_side") == 0 {
+		s := RawScript{Side: "discover",
+			Requested: rapid.SampledFrom([]string{"", "", "2026-07-28", "2099-01-01", "2025-11-25"}).Draw(rt, "requested"),
+			Discover:  rapid.SampledFrom([]string{"list", "list", "list", "empty", "null", "absent", "error"}).Draw(rt, "discover"),
+			Version:   rapid.SampledFrom([]string{"2025-11-25", "2025-06-18", "2025-03-26", "2024-11-05", "2026-07-28", "2024-01-01", "abc"}).Draw(rt, "init_answer"),
+		}
+		if s.Discover == "list" {
+			s.Advertised = rapid.SliceOfNDistinct(rapid.SampledFrom([]string{"2026-07-28", "2025-11-25", "2025-06-18", "2024-11-05", "2099-01-01", "2026-07-29", "abc", ""}), 1, 4, rapid.ID[string]).Draw(rt, "advertised")
+		}
+		return s
+	}
 	return RawScript{
 		Side: rapid.SampledFrom([]string{"server", "client"}).Draw(rt, "side"),
 		Version: rapid.OneOf(
@@ -528,6 +544,9 @@ func runRawInBubble(s RawScript) (res vt.Result) {
 		}
 		return
 	}
+	if s.Side == "discover" {
+		return runRawDiscover(s)
+	}
 	// SDK client against a scripted server that answers initialize with s.Version.
 	sc := memio.NewScriptConn()
 	client := mcp.NewClient(&mcp.Implementation{Name: "cli", Version: "1"}, nil)
@@ -588,6 +607,107 @@ func runRawInBubble(s RawScript) (res vt.Result) {
 	defer func() { sc.FailRead(io.EOF); r.cs.Close() }()
 	if got := r.cs.InitializeResult().ProtocolVersion; !slices.Contains(sdkVersions, got) {
 		res.Failf("client established a session with negotiated version %q, which the SDK does not support (server answered %q)", got, s.Version)
+	}
+	return
+}
+
+// runRawDiscover: the SDK client, free to discover, against a scripted server whose server/discover answer
+// takes every shape. Without a handshake the client may only settle on a version the server advertised (and
+// the SDK supports); an answer that names no version at all is "no modern overlap": fall back or fail.
+func runRawDiscover(s RawScript) (res vt.Result) {
+	res.Desc = fmt.Sprintf("discover|%s|%s|%v|%s", s.Requested, s.Discover, s.Advertised, s.Version)
+	res.NonTrivial = s.Discover != "list" || !slices.Contains(s.Advertised, modern)
+	res.Class("discover_answer_" + s.Discover)
+	sc := memio.NewScriptConn()
+	client := mcp.NewClient(&mcp.Implementation{Name: "cli", Version: "1"}, nil)
+	type cr struct {
+		cs  *mcp.ClientSession
+		err error
+	}
+	ch := make(chan cr, 1)
+	go func() {
+		var o *mcp.ClientSessionOptions
+		if s.Requested != "" {
+			o = &mcp.ClientSessionOptions{ProtocolVersion: s.Requested}
+		}
+		cs, err := client.Connect(context.Background(), sc.Transport(), o)
+		ch <- cr{cs, err}
+	}()
+	answered := map[string]bool{}
+	sawInit, sawDiscover := false, false
+	var r cr
+	returned := false
+	for i := 0; i < 120 && !returned; i++ {
+		synctest.Wait()
+		for _, m := range sc.Written() {
+			q, ok := m.(*jsonrpc.Request)
+			if !ok || !q.IsCall() || answered[fmt.Sprint(q.ID.Raw())] {
+				continue
+			}
+			answered[fmt.Sprint(q.ID.Raw())] = true
+			switch q.Method {
+			case "server/discover":
+				sawDiscover = true
+				body := ""
+				switch s.Discover {
+				case "list":
+					vj, _ := json.Marshal(s.Advertised)
+					body = `"supportedVersions":` + string(vj) + `,`
+				case "empty":
+					body = `"supportedVersions":[],`
+				case "null":
+					body = `"supportedVersions":null,`
+				case "error":
+					sc.Inject(&jsonrpc.Response{ID: q.ID, Error: &jsonrpc.Error{Code: -32601, Message: "method not found"}})
+					continue
+				}
+				sc.Inject(&jsonrpc.Response{ID: q.ID, Result: json.RawMessage(`{` + body + `"capabilities":{"tools":{}},"_meta":{"io.modelcontextprotocol/serverInfo":{"name":"x","version":"0"}}}`)})
+			case "initialize":
+				sawInit = true
+				vj, _ := json.Marshal(s.Version)
+				sc.Inject(&jsonrpc.Response{ID: q.ID, Result: json.RawMessage(fmt.Sprintf(`{"protocolVersion":%s,"capabilities":{"tools":{}},"serverInfo":{"name":"x","version":"0"}}`, vj))})
+			default:
+				sc.Inject(&jsonrpc.Response{ID: q.ID, Result: json.RawMessage(`{}`)})
+			}
+		}
+		synctest.Wait()
+		select {
+		case r = <-ch:
+			returned = true
+		default:
+			time.Sleep(time.Second)
+		}
+	}
+	if !returned {
+		res.Failf("Connect did not return (discover answered %s %v, initialize answered %q)", s.Discover, s.Advertised, s.Version)
+		sc.Close()
+		return
+	}
+	if r.err != nil {
+		res.Class("client_rejected") // failing with an error is always an allowed outcome
+		sc.Close()
+		return
+	}
+	defer func() { sc.FailRead(io.EOF); r.cs.Close() }()
+	got := r.cs.InitializeResult().ProtocolVersion
+	if !slices.Contains(sdkVersions, got) {
+		res.Failf("client established a session with negotiated version %q, which the SDK does not support", got)
+	}
+	switch {
+	case got >= modern && sawInit:
+		// the scripted server answered the initialize request itself with a modern version: its own doing, not judged
+		res.Class("modern_version_taken_from_an_initialize_answer")
+	case got >= modern && !sawDiscover:
+		res.Failf("client settled on %q without asking the server (no server/discover seen)", got)
+	case got >= modern && (s.Discover != "list" || !slices.Contains(s.Advertised, got)):
+		res.Failf("client settled on %q without a handshake although the server's discover answer (%s %v) does not advertise it", got, s.Discover, s.Advertised)
+	case got < modern && !sawInit:
+		res.Failf("client reports legacy version %q without having sent initialize", got)
+	case got < modern && got != s.Version:
+		res.Failf("client reports %q, the server answered initialize with %q", got, s.Version)
+	}
+	if sawDiscover && sawInit {
+		res.Class("fallback_from_discover")
 	}
 	return
 }
